@@ -25,7 +25,7 @@ CONFIGS = [("ideal", None, 1000.37, 8000.0), ("single", "T_ship_gas", 100.37, 80
 
 
 def cases(tier, seed):
-    nxs = [5, 30, 100] if tier == "thorough" else [5, 30]
+    nxs = [5, 30, 100, 400] if tier == "thorough" else [5, 30]
     shifts = list(SHIFTS)
     if seed:
         shifts.append(round(1000 * seed_offset(seed), 6) + 0.5)
@@ -45,7 +45,7 @@ def cases(tier, seed):
                                 "nx": 5, "n": n, "L": L})
     ops = ["rf", "rf_density", "interp", "sim"]
     for (cls, tab, p_f, p_i) in CONFIGS:
-        for k in (1, 2, 3):
+        for k in ((1, 2, 3, 4, 5) if tier == "thorough" else (1, 2, 3)):
             for path in itertools.product(ops, repeat=k):
                 if tab and tab.startswith("A_"):
                     tab = "S_zlin"  # the density mode needs a density column
